@@ -305,9 +305,13 @@ func c20SelfExit(c c20Case, base string) (string, string) {
 	case "one-shell":
 		ci.Close()
 		co.Close()
-		if p.WaitFor(regexp.MustCompile(`Shell is gone`), 0, 30*time.Second) < 0 {
-			return "no-gone", "no 'gone' notice: " + trunc300(p.Output())
-		}
+		/* The 'gone' notice is only a convenient moment to go on from: the
+		program is winding down by then (its HTTP side returns as soon as
+		the two connections are idle), and its terminal side stops taking
+		queued notices at that moment, so the last one may never be
+		displayed (seen once in ~100 sessions with GOGC=1 under load).
+		Whether the shell is gone is judged by what follows. */
+		p.WaitFor(regexp.MustCompile(`Shell is gone`), 0, 10*time.Second)
 		/* The HTTP server's graceful shutdown polls for its connections
 		to go idle (at most every 500 ms); a line entered inside that
 		window is consumed before the program knows it is finishing.  An
